@@ -757,7 +757,8 @@ fn check_dict(run: &mut Run, idx: usize, w: &World5, l: &Loaded, in_user: bool) 
         match &l.words[d][i] {
             Err(e) => {
                 if in_user && r.dic_form.is_some() {
-                    bad.push(("c05:user-dicform:panic".into(), format!("get_word_info {}: dictionary form declared as {:?}", e, r.dic_form)));
+                    let form = if r.dic_form.as_ref().map_or(false, |t| t.user) { "own" } else { "sys" };
+                    bad.push((format!("c05:user-dicform:{}:panic", form), format!("get_word_info {}: dictionary form declared as {:?}", e, r.dic_form)));
                 } else {
                     bad.push((format!("c05:{}:{}", pre, e.to_lowercase()), format!("get_word_info of word {} -> {}", i, e)));
                 }
@@ -777,7 +778,8 @@ fn check_dict(run: &mut Run, idx: usize, w: &World5, l: &Loaded, in_user: bool) 
                     if o.norm != r.norm { bad.push(("c05:empty-form:norm".into(), format!("normalized form declared empty, loaded {:?}", o.norm))); }
                 } else { cmp(&mut bad, "norm", o.norm.clone(), r.norm.clone()); }
                 if in_user && r.dic_form.is_some() {
-                    if o.dicform != exp_dic { bad.push(("c05:user-dicform:wrong".into(), format!("dictionary form declared {:?} = {:?}, loaded {:?}", r.dic_form, exp_dic, o.dicform))); }
+                    let form = if r.dic_form.as_ref().map_or(false, |t| t.user) { "own" } else { "sys" };
+                    if o.dicform != exp_dic { bad.push((format!("c05:user-dicform:{}:wrong", form), format!("dictionary form declared {:?} = {:?}, loaded {:?}", r.dic_form, exp_dic, o.dicform))); }
                 } else if exp_dic.is_empty() {
                     // an empty headword of the referenced entry cannot be told apart from "no dictionary form"
                 } else { cmp(&mut bad, "dicform", o.dicform.clone(), exp_dic.clone()); }
